@@ -405,6 +405,12 @@ func main() {
 		if c.Thorough() {
 			c09Exhaustive(c)
 		}
+		// file-level stream: container file -> DecodeBytes -> DecodeFrames -> player
+		nfile := 250
+		if c.Thorough() {
+			nfile = 3000
+		}
+		c09FileStream(c, nfile)
 		// blend kernel through 1x1 animations: dst written with BlendNone, src blended over it.
 		for i := 0; i < nb; i++ {
 			rng := c.Rng.Fork()
